@@ -313,15 +313,16 @@ func (d *TCPDialer) dial(addr string, dualStack bool, timeout time.Duration) (ne
 	d.startTCPAddrsClean()
 	var conn net.Conn
 	n := uint32(len(addrs)) // #nosec G115
-	for range n {
-		conn, err = d.tryDial(network, addrs[idx%n].String(), deadline, d.concurrencyCh)
+	for i := range n {
+		// Rotate from idx%n: incrementing idx itself would skip or repeat
+		// addresses when it wraps around.
+		conn, err = d.tryDial(network, addrs[(idx%n+i)%n].String(), deadline, d.concurrencyCh)
 		if err == nil {
 			return conn, nil
 		}
 		if errors.Is(err, ErrDialTimeout) {
 			return nil, err
 		}
-		idx++
 	}
 	return nil, err
 }
